@@ -35,6 +35,7 @@ func ValidateParamsExist(o Output) error {
 	var errs []error
 	errs = append(errs, validateParamsExistsInParams(existing, o.Params)...)
 	errs = append(errs, validateParamsExistsInServices(existing, o.Services)...)
+	errs = append(errs, validateParamsExistsInDecorators(existing, o.Decorators)...)
 
 	return grouperror.Prefix("output.ValidateParamsExist: ", errs...)
 }
@@ -66,5 +67,19 @@ func validateParamsExistsInServices(existing map[string]struct{}, services []Ser
 		}
 	}
 
+	return errs
+}
+
+func validateParamsExistsInDecorators(existing map[string]struct{}, decorators []Decorator) []error {
+	var errs []error
+	for dID, d := range decorators {
+		for _, a := range d.Args {
+			for _, n := range a.DependsOnParams {
+				if _, ok := existing[n]; !ok {
+					errs = append(errs, fmt.Errorf("decorator(#%d, %+q): param %+q does not exist", dID, d.Tag, n))
+				}
+			}
+		}
+	}
 	return errs
 }
